@@ -25,6 +25,7 @@ use rayon::prelude::*;
 use serde_json::{json, Value as J};
 use std::collections::BTreeSet;
 use std::sync::atomic::{AtomicU64, Ordering};
+use std::sync::Mutex;
 
 // ------------------------------------------------------------------------ options
 
@@ -126,9 +127,6 @@ struct Target<'a> {
     /// the definition carries no descriptions (S1's hand-written SDL): do not compare them
     descriptions: bool,
     flavour: &'static str,
-    /// two-slot fillings: the same schema with only one of the slots filled, used to
-    /// attribute a definition that does not parse to the slot that breaks it on its own
-    singles: Vec<(&'a async_graphql::dynamic::Schema, &'a Model)>,
 }
 
 #[derive(Default)]
@@ -295,7 +293,8 @@ fn judge_sdl(sdl: &str, exp: &Model, o: &Opts, descriptions: bool, flavour: &str
     Verdict { violations: out, parsed_whole: whole.is_none(), equal_defs }
 }
 
-fn report(cx: &Cx, t: &Target, o: &Opts, sdl: Result<String, String>, cnt: &Counters) {
+/// Judge one export and feed the verdict to `cx`; returns the violation signatures.
+fn report(cx: &Cx, t: &Target, o: &Opts, sdl: Result<String, String>, cnt: &Counters) -> Vec<String> {
     cx.eval();
     let mut case = t.case.clone();
     case["options"] = o.json();
@@ -303,37 +302,10 @@ fn report(cx: &Cx, t: &Target, o: &Opts, sdl: Result<String, String>, cnt: &Coun
         Ok(s) => s,
         Err(p) => {
             cx.violation(Violation::new("panic", format!("sdl_with_options panicked: {p}"), case).key("where", "export"));
-            return;
+            return vec!["panic".into()];
         }
     };
-    let mut v = judge_sdl(&sdl, t.exp, o, t.descriptions, t.flavour);
-    if !t.singles.is_empty() && v.violations.iter().any(|(c, k, _)| c == "definition-not-parsable" && k.iter().any(|(n, val)| *n == "cause" && val.contains(','))) {
-        // several candidate causes in one definition: keep the composite cause only if no
-        // candidate breaks the definition on its own
-        let alone: Vec<Verdict> = t.singles.iter().map(|(s, e)| judge_sdl(&s.sdl_with_options(o.build()), e, o, t.descriptions, t.flavour)).collect();
-        let mut replaced = Vec::new();
-        for (c, k, d) in std::mem::take(&mut v.violations) {
-            let composite = c == "definition-not-parsable" && k.iter().any(|(n, val)| *n == "cause" && val.contains(','));
-            if !composite {
-                replaced.push((c, k, d));
-                continue;
-            }
-            let name = d.split('`').nth(1).and_then(|x| x.split(' ').nth(1)).unwrap_or("").to_string();
-            let mut explained = false;
-            for a in &alone {
-                for (c2, k2, d2) in &a.violations {
-                    if c2 == "definition-not-parsable" && d2.split('`').nth(1).and_then(|x| x.split(' ').nth(1)) == Some(name.as_str()) {
-                        replaced.push((c2.clone(), k2.clone(), format!("{d2}\n(attributed: this slot breaks the definition on its own; the case fills two slots)")));
-                        explained = true;
-                    }
-                }
-            }
-            if !explained {
-                replaced.push((c, k, d));
-            }
-        }
-        v.violations = replaced;
-    }
+    let v = judge_sdl(&sdl, t.exp, o, t.descriptions, t.flavour);
     cnt.equal_defs.fetch_add(v.equal_defs, Ordering::Relaxed);
     if v.parsed_whole {
         cnt.parse_ok.fetch_add(1, Ordering::Relaxed);
@@ -347,6 +319,7 @@ fn report(cx: &Cx, t: &Target, o: &Opts, sdl: Result<String, String>, cnt: &Coun
             *g.entry(format!("{class} {}", keys.iter().map(|(k, v)| format!("{k}={v}")).collect::<Vec<_>>().join(" "))).or_insert(0) += 1;
         }
     }
+    let sigs: Vec<String> = v.violations.iter().map(|(c, k, d)| format!("{c}|{k:?}|{d}")).collect();
     for (class, keys, detail) in v.violations {
         let mut viol = Violation::new(class, detail, case.clone());
         for (k, val) in keys {
@@ -354,6 +327,7 @@ fn report(cx: &Cx, t: &Target, o: &Opts, sdl: Result<String, String>, cnt: &Coun
         }
         cx.violation(viol);
     }
+    sigs
 }
 
 // ------------------------------------------------------------------ dynamic family
@@ -587,9 +561,9 @@ fn run(cx: &Cx) {
     let fam_schema = fam::fam();
     let s1_schema = agv_common::s1::schema();
     all.par_iter().for_each(|o| {
-        let t = Target { case: json!({"schema": "fam (derive family)"}), exp: &fam_exp, descriptions: true, flavour: "static", singles: vec![] };
+        let t = Target { case: json!({"schema": "fam (derive family)"}), exp: &fam_exp, descriptions: true, flavour: "static" };
         report(cx, &t, o, agv_engine::catch_quiet(|| fam_schema.sdl_with_options(o.build())), &cnt);
-        let t = Target { case: json!({"schema": "S1"}), exp: &s1_exp, descriptions: false, flavour: "static", singles: vec![] };
+        let t = Target { case: json!({"schema": "S1"}), exp: &s1_exp, descriptions: false, flavour: "static" };
         report(cx, &t, o, agv_engine::catch_quiet(|| s1_schema.sdl_with_options(o.build())), &cnt);
         evals_static.fetch_add(2, Ordering::Relaxed);
         cx.nontrivial_count(2);
@@ -600,7 +574,7 @@ fn run(cx: &Cx) {
     match build_dynamic(&chain_doc) {
         Ok((schema, exp)) => {
             all.par_iter().for_each(|o| {
-                let t = Target { case: json!({"schema": "dynamic chain (C02 exemplar)"}), exp: &exp, descriptions: true, flavour: "dynamic", singles: vec![] };
+                let t = Target { case: json!({"schema": "dynamic chain (C02 exemplar)"}), exp: &exp, descriptions: true, flavour: "dynamic" };
                 report(cx, &t, o, agv_engine::catch_quiet(|| schema.sdl_with_options(o.build())), &cnt);
                 cx.nontrivial_count(1);
             });
@@ -619,31 +593,28 @@ fn run(cx: &Cx) {
     let slots = slots_of(&base);
     let s1 = strings(1);
     let s2: Vec<String> = strings(2).into_iter().filter(|s| !s1.contains(s)).collect();
-    let mut jobs: Vec<(Vec<(usize, String)>, bool)> = Vec::new(); // (fills, all options?)
+    // phase 0: the unfilled exemplar under every option — its discrepancies are the baseline
+    let (base_schema, base_exp) = build_dynamic(&base).expect("checked above");
+    let base_sigs: std::collections::HashMap<Opts, BTreeSet<String>> = all
+        .par_iter()
+        .map(|o| {
+            let t = Target { case: json!({"schema": "dynamic exemplar", "fills": []}), exp: &base_exp, descriptions: true, flavour: "dynamic" };
+            let sigs = report(cx, &t, o, agv_engine::catch_quiet(|| base_schema.sdl_with_options(o.build())), &cnt);
+            cx.nontrivial_count(1);
+            (*o, sigs.into_iter().collect())
+        })
+        .collect();
+    // phase 1: one slot at a time
+    let mut jobs: Vec<(usize, String, bool)> = Vec::new(); // (slot, text, all options?)
     for i in 0..slots.len() {
-        for s in &s1 {
-            jobs.push((vec![(i, s.clone())], !quick));
-        }
-        for s in &s2 {
-            jobs.push((vec![(i, s.clone())], !quick));
+        for s in s1.iter().chain(s2.iter()) {
+            jobs.push((i, s.clone(), !quick));
         }
     }
-    if !quick {
-        for i in 0..slots.len() {
-            for j in (i + 1)..slots.len() {
-                for a in &s1 {
-                    for b in &s1 {
-                        if !a.is_empty() && !b.is_empty() {
-                            jobs.push((vec![(i, a.clone()), (j, b.clone())], false));
-                        }
-                    }
-                }
-            }
-        }
-    }
-    jobs.push((vec![], true));
     let build_failures = AtomicU64::new(0);
-    jobs.par_iter().for_each(|(fills, full)| {
+    // (slot, text, options) whose export shows a discrepancy the unfilled exemplar does not
+    let dirty: Mutex<std::collections::HashSet<(usize, String, Opts)>> = Mutex::new(Default::default());
+    let run_job = |fills: &[(usize, String)], os: &[Opts], record_dirty: bool| {
         let fr: Vec<(usize, &str)> = fills.iter().map(|(i, s)| (*i, s.as_str())).collect();
         let doc = fill(&base, &fr);
         let case = json!({"schema": "dynamic exemplar", "fills": fills.iter().map(|(i, s)| json!({"slot": i, "kind": slots[*i].kind, "path": slots[*i].path, "text": s})).collect::<Vec<_>>()});
@@ -655,16 +626,46 @@ fn run(cx: &Cx) {
                 return;
             }
         };
-        let single_builds: Vec<(async_graphql::dynamic::Schema, Model)> = if fills.len() > 1 { fr.iter().filter_map(|f| build_dynamic(&fill(&base, &[*f])).ok()).collect() } else { vec![] };
-        let t = Target { case, exp: &exp, descriptions: true, flavour: "dynamic", singles: single_builds.iter().map(|(s, m)| (s, m)).collect() };
-        let os = if *full { &all } else { &relevant };
+        let t = Target { case, exp: &exp, descriptions: true, flavour: "dynamic" };
         for o in os {
-            report(cx, &t, o, agv_engine::catch_quiet(|| schema.sdl_with_options(o.build())), &cnt);
+            let sigs = report(cx, &t, o, agv_engine::catch_quiet(|| schema.sdl_with_options(o.build())), &cnt);
+            if record_dirty && sigs.iter().any(|x| !base_sigs[o].contains(x)) {
+                dirty.lock().unwrap().insert((fills[0].0, fills[0].1.clone(), *o));
+            }
         }
         cx.nontrivial_count(os.len() as u64);
-        let h = agv_engine::h64(&format!("{fills:?}"));
-        cx.sample_with(h, || json!({"fills": t.case["fills"], "options": os[os.len() / 2].json(), "sdl_head": schema.sdl_with_options(os[os.len() / 2].build()).chars().take(300).collect::<String>()}));
+        if !os.is_empty() {
+            let h = agv_engine::h64(&format!("{fills:?}"));
+            cx.sample_with(h, || json!({"fills": t.case["fills"], "options": os[os.len() / 2].json(), "sdl_head": schema.sdl_with_options(os[os.len() / 2].build()).chars().take(300).collect::<String>()}));
+        }
+    };
+    jobs.par_iter().for_each(|(i, s, full)| run_job(&[(*i, s.clone())], if *full { &all } else { &relevant }, true));
+    // phase 2 (thorough): two slots at a time. A pair is judged only under the options for
+    // which both of its single-slot cases are clean: where one slot already breaks the export
+    // on its own, that single case is the (smaller) counterexample and anything else seen in
+    // the pair may be a knock-on effect of it (two stray `"""` can even re-balance each other).
+    let mut pairs: Vec<(usize, String, usize, String)> = Vec::new();
+    if !quick {
+        for i in 0..slots.len() {
+            for j in (i + 1)..slots.len() {
+                for a in s1.iter().filter(|a| !a.is_empty()) {
+                    for b in s1.iter().filter(|b| !b.is_empty()) {
+                        pairs.push((i, a.clone(), j, b.clone()));
+                    }
+                }
+            }
+        }
+    }
+    let dirty_set = dirty.lock().unwrap().clone();
+    let dominated = AtomicU64::new(0);
+    pairs.par_iter().for_each(|(i, a, j, b)| {
+        let os: Vec<Opts> = relevant.iter().filter(|o| !dirty_set.contains(&(*i, a.clone(), **o)) && !dirty_set.contains(&(*j, b.clone(), **o))).cloned().collect();
+        dominated.fetch_add((relevant.len() - os.len()) as u64, Ordering::Relaxed);
+        if !os.is_empty() {
+            run_job(&[(*i, a.clone()), (*j, b.clone())], &os, false);
+        }
     });
+    let n_jobs = jobs.len() + pairs.len() + 1;
 
     if cnt.agree.load(Ordering::Relaxed) == 0 {
         cx.machinery_error("no export agreed with its definition: the oracle is vacuous or systematically wrong");
@@ -674,7 +675,7 @@ fn run(cx: &Cx) {
         slots.len(),
         s1.len(),
         s2.len(),
-        if quick { "" } else { "; all pairs of slots with non-empty strings of length 1" },
+        if quick { "" } else { "; all pairs of slots with non-empty strings of length 1 (judged under the options for which both single-slot cases are clean)" },
         all.len(),
         if quick { "" } else { " and every single-slot filling" },
         relevant.len()
@@ -682,7 +683,9 @@ fn run(cx: &Cx) {
     cx.exhaustive(true);
     cx.extra("option_combinations", json!(all.len()));
     cx.extra("text_slots", json!(slots.iter().map(|s| format!("{}:{}", s.kind, s.path)).collect::<Vec<_>>()));
-    cx.extra("slot_fillings", json!(jobs.len()));
+    cx.extra("slot_fillings", json!(n_jobs));
+    cx.extra("single_slot_cases_with_a_discrepancy_of_their_own", json!(dirty_set.len()));
+    cx.extra("pair_cases_skipped_because_one_slot_alone_already_fails", json!(dominated.load(Ordering::Relaxed)));
     cx.extra("exports_parsing_as_a_whole", json!(cnt.parse_ok.load(Ordering::Relaxed)));
     cx.extra("exports_equal_to_definition", json!(cnt.agree.load(Ordering::Relaxed)));
     cx.extra("definitions_exported_exactly", json!(cnt.equal_defs.load(Ordering::Relaxed)));
